@@ -487,6 +487,22 @@ def writeScopeLayers (layers : List Layer) (restored : Option Layer) (d : Doc) :
              stOrder := outer.order, stAfterLet := outer.afterLet,
              stack := rest.filter (!·.scope.isEmpty) }
 
+/-- replace the `scope` list of the `k`-th layer that has a non-empty scope -/
+def setNthNonEmpty (sc : List Node) : Nat → List Layer → List Layer
+  | _, [] => []
+  | k, l :: ls =>
+    if l.scope.isEmpty then l :: setNthNonEmpty sc k ls
+    else match k with
+      | 0 => { l with scope := sc } :: ls
+      | k + 1 => l :: setNthNonEmpty sc k ls
+
+/-- in-place update of the `scope` list of collected layer `idx` (see `collectScopeLayers`) -/
+def Doc.setLayerScope (idx : Nat) (sc : List Node) (d : Doc) : Doc :=
+  if d.scope.isEmpty then { d with stack := setNthNonEmpty sc idx d.stack }
+  else match idx with
+    | 0 => { d with scope := sc }
+    | k + 1 => { d with stack := setNthNonEmpty sc k d.stack }
+
 /-- scratch `AttributeSet(values=layer["scope"], attrpath_order=layer["attrpath_order"])`;
     the scratch object gets a fresh identity and lives in the `scope`-independent slot of the run. -/
 def layerAsSet (sid : Nat) (l : Layer) : Node := .set sid l.scope l.order true false
@@ -533,9 +549,9 @@ def onLayer (layers : List Layer) (fromDoc : Bool) (idx : Nat) (op : Node → Ed
     match r with
     | .ok () => (.ok (listSet layers1 idx (setLayerFrom l1 scratch')), d2)
     | .error e =>
-      -- the shared `scope` list keeps whatever was appended before the failure
-      if fromDoc then
-        (.error e, writeScopeLayers (listSet layers1 idx { l1 with scope := scratch'.setValues }) none d2)
+      -- nothing is written back on failure; only the `scope` list, which the scratch set shares
+      -- with the layer, keeps whatever was appended before the failure
+      if fromDoc then (.error e, d2.setLayerScope idx scratch'.setValues)
       else (.error e, d2)
 
 /-- `set_value(source, npath, value)` up to (not including) the final `source.rebuild()` -/
